@@ -17,6 +17,7 @@ import random
 
 from .core import AnalysisError, Checker
 from . import circuit_model as cm
+from . import semantics
 from .eval_fold import real_model
 from .interp import InterpRaise
 from .rewrites import FakeGate
@@ -64,6 +65,11 @@ def gen_op(rnd: random.Random, M, c, counter):
     blocks = list(d['_blocks'])
 
     def fresh():
+        # sometimes the label of a gate that an earlier call removed (a later gate of another kind under an old name)
+        if len(counter) > 1 and counter[1] and rnd.random() < 0.3:
+            old = counter[1].pop(rnd.randrange(len(counter[1])))
+            if old not in d['_gates']:
+                return old
         counter[0] += 1
         return f'n{counter[0]}'
 
@@ -142,7 +148,7 @@ def gen_op(rnd: random.Random, M, c, counter):
         return kind, (name,), {}, f'{kind}({name!r})'
     if kind == 'connect':
         k = fresh()
-        other = M.new_circuit([('x', 'INPUT', ()), ('y', 'INPUT', ()), ('z', rnd.choice(TYPES2), ('x', 'y')), ('w', 'NOT', ('z',))], ('w', 'z') if rnd.random() < 0.5 else ('w',))
+        other = M.build_circuit([('x', 'INPUT', ()), ('y', 'INPUT', ()), ('z', rnd.choice(TYPES2), ('x', 'y')), ('w', 'NOT', ('z',))], ('w', 'z') if rnd.random() < 0.5 else ('w',))
         right = rnd.random() < 0.4
         if right:
             tc = rnd.sample(inputs, min(len(inputs), rnd.randint(0, 2)))
@@ -197,7 +203,7 @@ def gen_op(rnd: random.Random, M, c, counter):
         clash = rnd.choice(other) if other else k + 'b'
         body += [(clash, t, tuple(im[o] for o in gate.operands)), (k + 'c', 'IFF', (clash,))]
         out = k + 'c'
-    sub = M.new_circuit(body, (out,))
+    sub = M.build_circuit(body, (out,))
     om = {g: out}
     if bad:
         om = {g: 'missing'}
@@ -283,6 +289,70 @@ def semantic_problems(name, args, before, tt_before, c, result):
     return []
 
 
+OBSERVERS = ('get_truth_table', 'evaluate_full_circuit', 'evaluate_circuit', 'top_sort')
+
+
+def observe(M, c, rnd, which=OBSERVERS):
+    """The repository's own observers folded on the current (well-formed) state and compared with their definitions.  Called
+    at random points of a history, i.e. before and after mutations: an answer remembered from an earlier state shows up here.
+    Returns {observer: problem}."""
+    from .compose_fold import state_values
+    import itertools
+    d = c._d
+    if problems(c):
+        return {}
+    ins = list(d['_inputs'])
+    out = {}
+    before = cm.snapshot(c)
+    legal = all(semantics.legal_arity(g.gate_type.var, len(g.operands)) for g in d['_gates'].values())
+    if not legal or len(ins) > 5:
+        which = [w for w in which if w == 'top_sort']
+    if 'get_truth_table' in which and d['_outputs']:
+        got, err = M.call(c, 'get_truth_table')
+        want = [[state_values(c, dict(zip(ins, bits)))[o] for bits in itertools.product((False, True), repeat=len(ins))] for o in d['_outputs']]
+        if err:
+            out['get_truth_table'] = f'get_truth_table raises {err}'
+        elif [list(r) for r in got] != want:
+            out['get_truth_table'] = f'get_truth_table answers {[["01"[bool(v)] if isinstance(v, bool) else "?" for v in r] for r in got]}, the circuit computes {[["01"[v] for v in r] for r in want]}'
+    if legal and len(ins) <= 5 and (ins or d['_gates']):
+        a = {i: rnd.random() < 0.5 for i in ins}
+        ref = state_values(c, a)
+        if 'evaluate_full_circuit' in which:
+            got, err = M.call(c, 'evaluate_full_circuit', dict(a))
+            if err:
+                out['evaluate_full_circuit'] = f'evaluate_full_circuit raises {err} on the total assignment {a}'
+            else:
+                wrong = [l for l in d['_gates'] if got.get(l) is not ref[l] and got.get(l) != ref[l] or not isinstance(got.get(l), bool)]
+                if wrong:
+                    out['evaluate_full_circuit'] = f'evaluate_full_circuit on the total assignment {a} gives {wrong[0]} = {got.get(wrong[0])!r}, the circuit computes {ref[wrong[0]]}'
+        if 'evaluate_circuit' in which and d['_outputs']:
+            got, err = M.call(c, 'evaluate_circuit', dict(a))
+            if err:
+                out['evaluate_circuit'] = f'evaluate_circuit raises {err} on the total assignment {a}'
+            else:
+                wrong = [o for o in d['_outputs'] if not isinstance(got.get(o), bool) or got.get(o) != ref[o]]
+                if wrong:
+                    out['evaluate_circuit'] = f'evaluate_circuit on the total assignment {a} gives output {wrong[0]} = {got.get(wrong[0])!r}, the circuit computes {ref[wrong[0]]}'
+    if 'top_sort' in which:
+        for inverse in (False, True):
+            got, err = M.call(c, 'top_sort', inverse=inverse)
+            if err:
+                out['top_sort'] = f'top_sort(inverse={inverse}) raises {err}'
+                break
+            order = [g.label for g in got]
+            pos = {l: i for i, l in enumerate(order)}
+            if sorted(order) != sorted(d['_gates']):
+                out['top_sort'] = f'top_sort(inverse={inverse}) yields {order}, the gates are {sorted(d["_gates"])}'
+                break
+            bad = [(l, o) for l, g in d['_gates'].items() for o in g.operands if (pos[o] > pos[l]) == inverse]
+            if bad:
+                out['top_sort'] = f'top_sort(inverse={inverse}) yields {bad[0][0]} on the wrong side of its operand {bad[0][1]}: {order}'
+                break
+    if cm.snapshot(c) != before:
+        out['observers'] = 'an observer changed the circuit'
+    return out
+
+
 STARTS = [
     (cm.BASE_SPEC, cm.BASE_OUTPUTS, cm.BASE_BLOCKS),
     ([('a', 'INPUT', ()), ('b', 'INPUT', ())], ('a',), ()),
@@ -290,21 +360,34 @@ STARTS = [
 ]
 
 
-def fold_histories(ck: Checker, R: str, only=None):
+def fold_histories(ck: Checker, R: str, only=None, observers=(), n_hist=None):
+    """`observers`: which of OBSERVERS are folded at random points of the histories (an obligation `observe <name>` each)."""
     repo = ck.repo
     M = real_model(repo)
     mod = M.mod
-    n_hist = 300 if ck.tier == "quick" else 3000
+    n_hist = n_hist or (300 if ck.tier == "quick" else 3000)
+    obs_rnd = random.Random(4711)
+    obs = {w: {'n': 0, 'problems': []} for w in observers}
     length = 12
     rnd = random.Random(20260925)
     per_method = {}
     n_calls = n_ok = 0
     for h in range(n_hist):
         spec, outs, blocks = STARTS[h % len(STARTS)]
-        c = M.new_circuit(spec, outs, blocks)
-        counter = [0]
+        # (built through the repository's own constructors: whatever the class keeps about its gates is kept consistently)
+        c = M.build_circuit(spec, outs, blocks)
+        counter = [0, []]     # fresh-label counter, labels of removed gates
         trail = []
-        for step in range(length):
+        for step in range(length + 1):
+            if observers and (step == length or obs_rnd.random() < 0.3):
+                for w, msg in observe(M, c, obs_rnd, observers).items():
+                    if w in obs or w == 'observers':
+                        rec_o = obs.setdefault(w, {'n': 0, 'problems': []})
+                        rec_o['problems'].append(f'{msg} after the history {" ; ".join(trail) or "(start state)"} (start state {h % len(STARTS)})')
+                for w in observers:
+                    obs[w]['n'] += 1
+            if step == length:
+                break
             name, args, kwargs, text = gen_op(rnd, M, c, counter)
             trail.append(text)
             n_calls += 1
@@ -326,6 +409,7 @@ def fold_histories(ck: Checker, R: str, only=None):
                 continue
             rec['returned'] += 1
             n_ok += 1
+            counter[1].extend(l for l in before['gates'] if l not in c._d['_gates'] and l not in counter[1])
             pr = problems(c)
             if not pr:
                 pr = semantic_problems(name, args, before, tt_before, c, _)
@@ -333,10 +417,14 @@ def fold_histories(ck: Checker, R: str, only=None):
                 rec['problems'].append(f'{pr[0]} after the history {" ; ".join(trail)} (start state {h % len(STARTS)})')
                 break
     for name, rec in sorted(per_method.items()):
-        if only and name not in only:
+        if only is not None and name not in only:
             continue
         ck.check(not rec['problems'], R, mod, mod.func(f'Circuit.{name}'), f'{name}: every call that returns leaves a well-formed circuit ({rec["returned"]} of {rec["calls"]} calls returned, inside {n_hist} seeded histories of <= {length} public mutations)',
                  '; '.join(rec['problems'][:2]), construct=f'Circuit.{name} inside histories of public mutations')
+    for w, rec_o in obs.items():
+        fname = {'observers': 'get_truth_table'}.get(w, w)
+        ck.check(not rec_o['problems'], R, mod, mod.func(f'Circuit.{fname}'), f'{w} folded at {rec_o["n"]} random points of {n_hist} seeded histories (before and after mutations) answers for the circuit as it is then',
+                 '; '.join(rec_o['problems'][:2]), construct=f'observe {w} inside histories of public mutations')
     ck.add_coverage(M.interp)
     ck.notes['history_calls'] = n_calls
     ck.notes['history_calls_returned'] = n_ok
@@ -357,7 +445,7 @@ def fold_copy_convert(ck: Checker, R: str):
          (('B', ('a', 'b'), ('g', 'h'), ('h',)), ('C', ('h',), ('t', 'k'), ('k',)))),
     ]:
         n += 1
-        c = M.new_circuit(spec, outs, blocks)
+        c = M.build_circuit(spec, outs, blocks)
         before = cm.snapshot(c)
         cp, err = M.call(c, '__copy__')
         if err:
@@ -410,8 +498,8 @@ def fold_replace_cases(ck: Checker, R: str):
     ]
     for desc, outs, (sspec, souts), im, om, refuse in cases:
         # (in the two-gate region no gate outside may read the inner gate g: the host is taken without k there)
-        c = M.new_circuit([x for x in host if not (desc.startswith('a region of two gates') and x[0] == 'k')], outs)
-        sub = M.new_circuit(sspec, souts)
+        c = M.build_circuit([x for x in host if not (desc.startswith('a region of two gates') and x[0] == 'k')], outs)
+        sub = M.build_circuit(sspec, souts)
         tt0 = truth_table(c)
         sub0 = cm.snapshot(sub)
         _, err = M.call(c, 'replace_subcircuit', sub, dict(im), dict(om))
